@@ -1209,6 +1209,223 @@ func (g *ciGen) genShiftGuard() error {
 	return nil
 }
 
+
+// ---------------------------------------------------------------------------------------------
+// toSameConstImpl / asFloatingPoint: which implementation two operands are brought to, and by which
+// conversion functions.  Every conversion expression is decomposed into primitive steps; a step that
+// can round (int64 → float64, big.Rat → 512-bit big.Float) is a different step from an exact one, so an
+// inexact promotion is a changed definition.
+
+var ciImplOf = map[string]string{"int64Const": "small", "intConst": "big", "float64Const": "f64", "floatConst": "bigf", "ratConst": "rat"}
+
+// convSteps translates a conversion expression over the variable `name` (of implementation impl);
+// it returns the steps and the resulting implementation.
+func (g *ciGen) convSteps(e ast.Expr, vars map[string]string) ([]string, string, error) {
+	// value types while translating: small big f64 bigf rat (constants), rawi64, rawf64 (Go numbers)
+	var tr func(e ast.Expr) ([]string, string, error)
+	tr = func(e ast.Expr) ([]string, string, error) {
+		switch e := e.(type) {
+		case *ast.Ident:
+			if t, ok := vars[e.Name]; ok {
+				return nil, t, nil
+			}
+		case *ast.CallExpr:
+			fun := g.src(e.Fun)
+			switch {
+			case (fun == "int64" || fun == "float64") && len(e.Args) == 1:
+				st, t, err := tr(e.Args[0])
+				if err != nil {
+					return nil, "", err
+				}
+				switch {
+				case fun == "int64" && t == "small":
+					return st, "rawi64", nil
+				case fun == "float64" && t == "f64":
+					return st, "rawf64", nil
+				case fun == "float64" && (t == "small" || t == "rawi64"):
+					return append(st, "i64ToF64"), "rawf64", nil // rounds to 53 bits
+				case fun == "int64" && t == "rawi64", fun == "float64" && t == "rawf64":
+					return st, t, nil
+				}
+			case fun == "newIntConst" && len(e.Args) == 1:
+				st, t, err := tr(e.Args[0])
+				if err == nil && t == "rawi64" {
+					return append(st, "i64ToBig"), "big", nil
+				}
+			case fun == "newFloatConst" && len(e.Args) == 1:
+				st, t, err := tr(e.Args[0])
+				if err == nil && t == "rawf64" {
+					return append(st, "f64ToBigFloat"), "bigf", nil
+				}
+			case fun == "newFloatConst(0).setInt64" && len(e.Args) == 1:
+				st, t, err := tr(e.Args[0])
+				if err == nil && t == "rawi64" {
+					return append(st, "i64ToBigFloat"), "bigf", nil
+				}
+			case fun == "newFloatConst(0).setInt" && len(e.Args) == 1:
+				if sel, ok := e.Args[0].(*ast.SelectorExpr); ok && sel.Sel.Name == "i" {
+					st, t, err := tr(sel.X)
+					if err == nil && t == "big" {
+						return append(st, "bigToBigFloat"), "bigf", nil
+					}
+				}
+			case fun == "newFloatConst(0).setRat" && len(e.Args) == 1:
+				if sel, ok := e.Args[0].(*ast.SelectorExpr); ok && sel.Sel.Name == "r" {
+					st, t, err := tr(sel.X)
+					if err == nil && t == "rat" {
+						return append(st, "ratToBigFloat"), "bigf", nil // rounds to 512 bits
+					}
+				}
+			case fun == "newRatConst" && len(e.Args) == 2 && g.src(e.Args[1]) == "1":
+				st, t, err := tr(e.Args[0])
+				if err == nil && t == "rawi64" {
+					return append(st, "i64ToRat"), "rat", nil
+				}
+			case fun == "newRatConst(1, 1).setFrac" && len(e.Args) == 2 && g.src(e.Args[1]) == "big.NewInt(1)":
+				if sel, ok := e.Args[0].(*ast.SelectorExpr); ok && sel.Sel.Name == "i" {
+					st, t, err := tr(sel.X)
+					if err == nil && t == "big" {
+						return append(st, "bigToRat"), "rat", nil
+					}
+				}
+			case fun == "newRatConst(1, 1).setFloat64" && len(e.Args) == 1:
+				st, t, err := tr(e.Args[0])
+				if err == nil && t == "rawf64" {
+					return append(st, "f64ToRat"), "rat", nil
+				}
+			}
+		}
+		return nil, "", g.errf(e, "conversion expression")
+	}
+	return tr(e)
+}
+
+func ciStepList(st []string) string {
+	var b []string
+	for _, s := range st {
+		b = append(b, "."+s)
+	}
+	return "[" + strings.Join(b, ", ") + "]"
+}
+
+func (g *ciGen) genPromote() error {
+	fd, err := g.method("", "toSameConstImpl")
+	if err != nil {
+		return err
+	}
+	b := fd.Body.List
+	if len(b) != 3 || g.src(b[1]) != "n2, n1 := toSameConstImpl(c2, c1)" || g.src(b[2]) != "return n1, n2" {
+		return g.errf(fd.Body, "toSameConstImpl: type switch; swapped recursive call; return")
+	}
+	outer, ok := b[0].(*ast.TypeSwitchStmt)
+	if !ok || g.src(outer.Assign) != "n1 := c1.(type)" {
+		return g.errf(b[0], "toSameConstImpl: switch n1 := c1.(type)")
+	}
+	type entry struct{ s1, s2 []string }
+	table := map[[2]string]entry{}
+	for _, c := range outer.Body.List {
+		cc := c.(*ast.CaseClause)
+		if len(cc.List) != 1 || len(cc.Body) != 1 {
+			return g.errf(cc, "toSameConstImpl: outer case")
+		}
+		i1, ok := ciImplOf[g.src(cc.List[0])]
+		if !ok {
+			return g.errf(cc.List[0], "toSameConstImpl: implementation type")
+		}
+		inner, ok := cc.Body[0].(*ast.TypeSwitchStmt)
+		if !ok || g.src(inner.Assign) != "n2 := c2.(type)" {
+			return g.errf(cc.Body[0], "toSameConstImpl: switch n2 := c2.(type)")
+		}
+		for _, c2 := range inner.Body.List {
+			cc2 := c2.(*ast.CaseClause)
+			if len(cc2.List) != 1 || len(cc2.Body) != 1 {
+				return g.errf(cc2, "toSameConstImpl: inner case")
+			}
+			if g.src(cc2.List[0]) == "complexConst" {
+				continue // complex constants are outside the model
+			}
+			i2, ok := ciImplOf[g.src(cc2.List[0])]
+			if !ok {
+				return g.errf(cc2.List[0], "toSameConstImpl: implementation type")
+			}
+			ret, ok := cc2.Body[0].(*ast.ReturnStmt)
+			if !ok || len(ret.Results) != 2 {
+				return g.errf(cc2.Body[0], "toSameConstImpl: return of two constants")
+			}
+			vars := map[string]string{"n1": i1, "n2": i2}
+			s1, t1, err := g.convSteps(ret.Results[0], vars)
+			if err != nil {
+				return err
+			}
+			s2, t2, err := g.convSteps(ret.Results[1], vars)
+			if err != nil {
+				return err
+			}
+			if t1 != t2 {
+				return g.errf(ret, "toSameConstImpl: the two results have different implementations (%s, %s)", t1, t2)
+			}
+			if _, dup := table[[2]string{i1, i2}]; dup || i1 == i2 {
+				return g.errf(cc2, "toSameConstImpl: duplicate or reflexive pair")
+			}
+			table[[2]string{i1, i2}] = entry{s1, s2}
+		}
+	}
+	w := &g.out
+	impls := []string{"small", "big", "f64", "bigf", "rat"}
+	fmt.Fprintf(w, "\n/-- `toSameConstImpl`: for the implementations of (c1, c2), the conversion steps applied to c1 and to c2\n(with the swapped recursive call unfolded); `none`: the pair is not handled (the code would recurse forever) (%s) -/\n", g.fset.Position(fd.Pos()))
+	fmt.Fprintf(w, "def promote : Impl → Impl → Option (List Step × List Step)\n")
+	for _, i := range impls {
+		for _, j := range impls {
+			if e, ok := table[[2]string{i, j}]; ok {
+				fmt.Fprintf(w, "  | .%s, .%s => some (%s, %s)\n", i, j, ciStepList(e.s1), ciStepList(e.s2))
+			} else if e, ok := table[[2]string{j, i}]; ok {
+				fmt.Fprintf(w, "  | .%s, .%s => some (%s, %s)\n", i, j, ciStepList(e.s2), ciStepList(e.s1))
+			} else {
+				fmt.Fprintf(w, "  | .%s, .%s => none\n", i, j)
+			}
+		}
+	}
+	// asFloatingPoint
+	fd, err = g.method("", "asFloatingPoint")
+	if err != nil {
+		return err
+	}
+	b = fd.Body.List
+	if len(b) != 2 || g.src(b[1]) != "return c" {
+		return g.errf(fd.Body, "asFloatingPoint: type switch; return c")
+	}
+	ts, ok := b[0].(*ast.TypeSwitchStmt)
+	if !ok || g.src(ts.Assign) != "c := c.(type)" {
+		return g.errf(b[0], "asFloatingPoint: switch c := c.(type)")
+	}
+	conv := map[string][]string{}
+	for _, c := range ts.Body.List {
+		cc := c.(*ast.CaseClause)
+		if len(cc.List) != 1 || len(cc.Body) != 1 {
+			return g.errf(cc, "asFloatingPoint: case")
+		}
+		i, ok := ciImplOf[g.src(cc.List[0])]
+		ret, ok2 := cc.Body[0].(*ast.ReturnStmt)
+		if !ok || !ok2 || len(ret.Results) != 1 {
+			return g.errf(cc, "asFloatingPoint: case")
+		}
+		st, t, err := g.convSteps(ret.Results[0], map[string]string{"c": i})
+		if err != nil {
+			return err
+		}
+		if t != "bigf" {
+			return g.errf(ret, "asFloatingPoint: result is not a floatConst")
+		}
+		conv[i] = st
+	}
+	fmt.Fprintf(w, "\n/-- `asFloatingPoint`: conversion of an integer implementation before a floating-point division (%s) -/\n", g.fset.Position(fd.Pos()))
+	fmt.Fprintf(w, "def asFloatingPoint : Impl → List Step\n")
+	for _, i := range impls {
+		fmt.Fprintf(w, "  | .%s => %s\n", i, ciStepList(conv[i]))
+	}
+	return nil
+}
+
 func genConstInt(repo string) (string, error) {
 	g := &ciGen{fset: token.NewFileSet(), consts: map[string]ast.Expr{}, vars: map[string]ast.Expr{}}
 	for _, name := range []string{"constant.go", "checker_util.go", "checker_scopes.go"} {
@@ -1257,8 +1474,10 @@ func genConstInt(repo string) (string, error) {
 	fmt.Fprintf(w, "inductive FastResult where\n  | value (r : BitVec 64) | bool (b : Bool) | useBig | divZero | invalidOp | goPanic\n  deriving DecidableEq, Repr\n\n")
 	fmt.Fprintf(w, "inductive Rep where\n  | ok | overflow | notInteger\n  deriving DecidableEq, Repr\n\n")
 	fmt.Fprintf(w, "inductive BigMethod where\n  | Cmp | Add | Sub | Mul | Quo | Rem | And | Or | Xor | AndNot\n  deriving DecidableEq, Repr\n\n")
+	fmt.Fprintf(w, "/-- implementation types of a numeric constant: int64Const, intConst, float64Const, floatConst (512-bit big.Float), ratConst -/\ninductive Impl where\n  | small | big | f64 | bigf | rat\n  deriving DecidableEq, Repr\n\n")
+	fmt.Fprintf(w, "/-- primitive conversion steps between implementations; `i64ToF64` and `ratToBigFloat` can round -/\ninductive Step where\n  | i64ToBig | i64ToF64 | i64ToBigFloat | i64ToRat | bigToBigFloat | bigToRat | f64ToBigFloat | f64ToRat | ratToBigFloat\n  deriving DecidableEq, Repr\n\n")
 	fmt.Fprintf(w, "structure BigOp where\n  method : BigMethod\n  checksOverflow : Bool\n  refusesZeroDivisor : Bool\n  deriving DecidableEq, Repr\n")
-	for _, step := range []func() error{g.genIsSigned, g.genTables, g.genFastBinary, g.genFastUnary, g.genRepFast, g.genBig, g.genShiftGuard} {
+	for _, step := range []func() error{g.genIsSigned, g.genTables, g.genFastBinary, g.genFastUnary, g.genRepFast, g.genBig, g.genShiftGuard, g.genPromote} {
 		if err := step(); err != nil {
 			return "", err
 		}
